@@ -2,7 +2,7 @@
 From Coq Require Import ZArith List Bool String.
 From Exactly Require Import Lib.Harness Model.Outcome Spec.C02 Proofs.OutcomeTable Gen.C02_tables.
 Import ListNotations.
-Open Scope Z_scope.
+Local Open Scope Z_scope.
 
 (** The verdict is the documented function of the configured status and the outcome. *)
 Theorem C02_verdict_table : forall mode ps, full_status_of None mode ps = doc_verdict mode ps.
